@@ -1,6 +1,9 @@
 import TextxVerif.Wire
 import TextxVerif.ProcWalk
 import TextxVerif.ProcLocate
+import TextxVerif.ProcRaise
+import TextxVerif.ProcLoad
+import TextxVerif.ProcMatch
 /-! Driver for the processor models (C13, C33).
 ops:
   {"op":"objproc","kinds":[0|1|2 …],"reg":[cls…],"user":[cls…],"script":[[rule,id,R]…],
@@ -12,10 +15,26 @@ ops:
    → {"events":[["r",n]|["i",m,id]|["p",m,rule,id]…],
       "logs":[[[rule,id,[shallow field values…]]…]…], "finals":[W…]}   (W: V without attribute metadata)
    → {"err":"not-wf"} when some model does not have the shape the theorems assume
+     "link" (optional, one list per model): the cross-references of the model's file in text order,
+     [[id,pos,wait]…] (wait = how often the scope provider postpones the reference); the resolutions are then
+     computed by the resolution loop (Proc.loadEvents over LinkLoc.run) instead of taken from "resolves";
+   → {"err":"unlinked"} when that loop ends with an error (no initialisation, no processor call)
   {"op":"proc_error","kind":"obj"|"mtch","wrapped":bool,
    "raised":"other"|{"f":n|null,"l":n|null,"c":n|null,"n":n|null},"site":{"f":n|null,"l":n,"c":n,"n":n},
    "pinned"?:bool}
    → {"textx":{"f","l","c","n"}} | {"other":true}
+   instead of "site" (the location as the real object reports it) the request may carry what the location is
+   computed from:
+     "src":{"f":n|null,"text":str,"pos":n,"end":n}       → site = Proc.siteOf (pos_to_linecol of the text)
+     "walk":{"kinds","regs":[[cls…]…],"models":[V…],"raise":[rule,id],
+             "srcs":[{"f":n|null,"text":str}…] (one per model),"spans":[[id,pos,end]…]}
+        → the models are walked in order with the processor of `rule` raising on object `id` (Proc.loadE);
+          the site is that of the object the failing call is made on; the answer also carries
+          "fail":{"model":k,"call":[rule,id],"before":[[rule,id]…]}  (or {"nofail":true} when nothing raises)
+     "mtree":{"tree":T,"raise":[rule,pos],"reg":[rule…],"f":n|null,"text":str}   T ::= [rule,pos] | [rule,pos,[T…]]
+        → (kind mtch) the match parse tree is processed as process_match does (Proc.matchE) with the processor of
+          `rule` raising for the node at `pos`; the site is the start of that node; the answer also carries
+          "fail":{"call":[rule,pos],"before":[[rule,pos]…]} (calls of rules in "reg" only) or {"nofail":true}
 -/
 open Lean Wire Proc
 
@@ -129,6 +148,24 @@ def optJson : Option Nat → Json
   | some n => toJson n
   | none => .null
 
+mutual
+partial def parseMNode (j : Json) : Option MNode := do
+  let a ← asArr? j
+  let r ← asNat? (← a[0]?)
+  let p ← asNat? (← a[1]?)
+  match a[2]? with
+  | none => pure (.term r p)
+  | some ks => do
+    let ks ← asArr? ks
+    pure (.nonterm r p (← parseMNodes ks.toList))
+partial def parseMNodes : List Json → Option MNodes
+  | [] => some .nil
+  | x :: xs => do
+    let n ← parseMNode x
+    let r ← parseMNodes xs
+    pure (.cons n r)
+end
+
 def handle (j : Json) : Json :=
   match getStr? j "op" with
   | some "objproc" =>
@@ -147,7 +184,29 @@ def handle (j : Json) : Json :=
       let mms : List (MM × Val) := (regs.zip models).map (fun p => (mk p.1, p.2))
       let S := scriptOf tbl
       if mms.all (fun p => wf p.1 p.2 p.2.cls && (match p.2 with | .obj _ _ _ => true | _ => false)) then
-        let evs := finishMM S (fun c => user.contains c) resolves mms
+        let link : Option (Option (List (List (Nat × Nat × Nat)))) := match j.getObjVal? "link" with
+          | .ok (.arr a) => (a.toList.mapM (fun x => (asArr? x).bind (fun xs => xs.toList.mapM (fun y => do
+              let ys ← asArr? y
+              pure (← asNat? (← ys[0]?), ← asNat? (← ys[1]?), ← asNat? (← ys[2]?)))))).map some
+          | .ok _ => none
+          | .error _ => some none
+        match link with
+        | none => badOp
+        | some link =>
+        let evs? : Option (List Ev) := match link with
+          | none => some (finishMM S (fun c => user.contains c) resolves mms)
+          | some fl =>
+            let files : List LinkLoc.FileSpec := fl.map (fun rs =>
+              { name := none, text := [], refs := rs.map (fun r => ⟨r.1, r.2.1, r.2.1 + 1⟩), nm := none })
+            let waits := fl.flatten
+            let ans : Nat → Nat → LinkLoc.Answer := fun k id =>
+              match waits.find? (fun r => r.1 == id) with
+              | some r => if k < r.2.2 then .postponed else .resolved ⟨none, 0, 0⟩
+              | none => .unknown
+            loadEvents files ans (LinkLoc.enoughFuel files) S (fun c => user.contains c) mms
+        match evs? with
+        | none => Json.mkObj [("err", "unlinked")]
+        | some evs =>
         let res := mms.map (fun p => walk p.1 S p.2 p.2.cls)
         Json.mkObj [("events", Json.arr (evs.map evJson).toArray),
                     ("logs", Json.arr (res.map (fun r => Json.arr (r.log.map entryJson).toArray)).toArray),
@@ -163,18 +222,81 @@ def handle (j : Json) : Json :=
       | .ok (.str "other") => some .other
       | .ok r => (parseLoc r).map Raised.textx
       | .error _ => none
-    let site : Option Site := do
-      let s ← getObj? j "site"
-      pure ⟨← optNat s "f", ← getNat? s "l", ← getNat? s "c", ← getNat? s "n"⟩
-    match kind, getBool? j "wrapped", raised, site with
-    | some k, some w, some r, some s =>
+    let answer (k : PKind) (w : Bool) (r : Raised) (s : Site) (extra : List (String × Json)) : Json :=
       -- "pinned":true evaluates the enrichment as it was before the repair (used once to validate
       -- `wrap`/`given` against the unrepaired tree, where the two paths are distinguishable)
       match (if getBool? j "pinned" == some true then outcomePinned k s w r else outcome k s w r) with
-      | .other => Json.mkObj [("other", true)]
-      | .textx l => Json.mkObj [("textx", Json.mkObj [("f", optJson l.filename), ("l", optJson l.line),
-                                                     ("c", optJson l.col), ("n", optJson l.nchar)])]
-    | _, _, _, _ => badOp
+      | .other => Json.mkObj ([("other", Json.bool true)] ++ extra)
+      | .textx l => Json.mkObj ([("textx", Json.mkObj [("f", optJson l.filename), ("l", optJson l.line),
+                                                      ("c", optJson l.col), ("n", optJson l.nchar)])] ++ extra)
+    match kind, getBool? j "wrapped", raised with
+    | some k, some w, some r =>
+      match j.getObjVal? "mtree", j.getObjVal? "walk", j.getObjVal? "src", j.getObjVal? "site" with
+      | .ok mj, _, _, _ =>
+        match k, (j.getObjVal? "mtree").toOption.bind (fun m => (m.getObjVal? "tree").toOption.bind parseMNode),
+              getNatList? mj "raise", getNatList? mj "reg", optNat mj "f", getStr? mj "text" with
+        | .mtch, some t, some [rr, rp], some reg, some file, some text =>
+          let R : Nat → Nat → Bool := fun a b => a == rr && b == rp
+          match matchE R t, matchErr file text.toList R w r t with
+          | .ok _, _ => Json.mkObj [("nofail", true)]
+          | .error _, none => badOp
+          | .error f, some res =>
+            let cJ (c : MCall) : Json := Json.arr #[toJson c.rule, toJson c.pos]
+            let extra := [("fail", Json.mkObj [("call", cJ f.call),
+                            ("before", Json.arr ((f.log.filter (fun c => reg.contains c.rule)).map cJ).toArray)])]
+            match res with
+            | .other => Json.mkObj ([("other", Json.bool true)] ++ extra)
+            | .textx l => Json.mkObj ([("textx", Json.mkObj [("f", optJson l.filename), ("l", optJson l.line),
+                                                            ("c", optJson l.col), ("n", optJson l.nchar)])] ++ extra)
+        | _, _, _, _, _, _ => badOp
+      | _, .ok wj, _, _ =>
+        -- the failing call and its site are determined by the walk
+        let srcs : Option (List (Option Nat × List Char)) := (getArr? wj "srcs").bind fun a =>
+          a.toList.mapM fun x => do pure (← optNat x "f", (← getStr? x "text").toList)
+        let spans : Option (List (Nat × Nat × Nat)) := (getArr? wj "spans").bind fun a =>
+          a.toList.mapM fun x => do
+            let xs ← asArr? x
+            pure (← asNat? (← xs[0]?), ← asNat? (← xs[1]?), ← asNat? (← xs[2]?))
+        match k, getNatList? wj "kinds", (getArr? wj "regs").bind (fun a => a.toList.mapM (fun x => (asArr? x).bind (fun xs => xs.toList.mapM asNat?))),
+              (getArr? wj "models").bind (fun a => a.toList.mapM parseVal), getNatList? wj "raise", srcs, spans with
+        | .obj, some ks, some regs, some models, some [rr, ri], some srcs, some spans =>
+          if regs.length ≠ models.length ∨ srcs.length ≠ models.length then badOp else
+          let mk (rg : List Nat) : MM := { kind := kindOf ks.toArray, hasProc := fun c => rg.contains c }
+          let mms : List (MM × Val) := (regs.zip models).map (fun p => (mk p.1, p.2))
+          let S : Script := fun _ _ => .none
+          let R : Raises := fun a b => a == rr && b == ri
+          if mms.all (fun p => wf p.1 p.2 p.2.cls && (match p.2 with | .obj _ _ _ => true | _ => false)) then
+            let span : Nat → Nat × Nat := fun i =>
+              match spans.find? (fun e => e.1 == i) with
+              | some e => (e.2.1, e.2.2)
+              | none => (0, 0)
+            let srcL : List Src := srcs.map (fun ft => ⟨ft.1, ft.2, span⟩)
+            match loadE S R mms, loadErr S R srcL (fun _ => w) (fun _ _ => r) mms with
+            | .ok _, _ => Json.mkObj [("nofail", true)]
+            | .error _, none => badOp
+            | .error (km, f), some res =>
+              let keyJ (e : Entry) : Json := Json.arr #[toJson e.rule, toJson e.id]
+              let before := ((mms.take km).map (fun p => (walk p.1 S p.2 p.2.cls).log)).flatten ++ f.log
+              let extra := [("fail", Json.mkObj [("model", toJson km), ("call", keyJ f.call),
+                                                 ("before", Json.arr (before.map keyJ).toArray)])]
+              match res with
+              | .other => Json.mkObj ([("other", Json.bool true)] ++ extra)
+              | .textx l => Json.mkObj ([("textx", Json.mkObj [("f", optJson l.filename), ("l", optJson l.line),
+                                                              ("c", optJson l.col), ("n", optJson l.nchar)])] ++ extra)
+          else Json.mkObj [("err", "not-wf")]
+        | _, _, _, _, _, _, _ => badOp
+      | _, _, .ok sj, _ =>
+        match optNat sj "f", getStr? sj "text", getNat? sj "pos", getNat? sj "end" with
+        | some f, some text, some pos, some pe => answer k w r (siteOf f text.toList pos pe) []
+        | _, _, _, _ => badOp
+      | _, _, _, .ok sj =>
+        let site : Option Site := do
+          pure ⟨← optNat sj "f", ← getNat? sj "l", ← getNat? sj "c", ← getNat? sj "n"⟩
+        match site with
+        | some s => answer k w r s []
+        | none => badOp
+      | _, _, _, _ => badOp
+    | _, _, _ => badOp
   | _ => badOp
 
 def main : IO Unit := serve handle
